@@ -303,6 +303,13 @@ func c12(r *hx.Run) {
 					placed := append(append([]fx.Placed{}, ex...), base...)
 					tag := fmt.Sprintf("cyc|%s|len=%d|v=%d", chainType, length, variant)
 					compareWithModel(r, tag, protoClient, pool, placed, delta)
+					// the same history next to a stored operation whose protocol version the client cannot serve (a failing
+					// lookup): it is ignored, and the cycle stays refused
+					if len(ex) > 0 {
+						junk := ex[0]
+						junk.Time, junk.Num, junk.Version, junk.Unknown = 1, 7, 77, true
+						compareWithModel(r, tag+"|unknown-version", versionFailClient{protoClient, 77}, pool, append([]fx.Placed{junk}, placed...), delta)
+					}
 					st, err := ResolveModel(placed, nil, delta)
 					if err == nil {
 						seen := map[string]bool{}
